@@ -139,24 +139,34 @@ func (in *Interp) regexToSMT(re *syntax.Regexp, atoms []Term, top bool) string {
 		if re.Op == syntax.OpConcat {
 			subs = re.Sub
 		}
-		begin, end := false, false
-		if len(subs) > 0 && subs[0].Op == syntax.OpBeginText {
-			begin = true
-			subs = subs[1:]
+		// what may precede / follow the match in an unanchored search: anything; nothing (^ / $ in single-line mode);
+		// nothing or a line boundary ((?m)^ matches after a newline, (?m)$ before one)
+		pre, post := "re.all", "re.all"
+		if len(subs) > 0 {
+			switch subs[0].Op {
+			case syntax.OpBeginText:
+				pre, subs = "", subs[1:]
+			case syntax.OpBeginLine:
+				pre, subs = `(re.union (str.to_re "") (re.++ re.all (str.to_re "\u{a}")))`, subs[1:]
+			}
 		}
-		if len(subs) > 0 && subs[len(subs)-1].Op == syntax.OpEndText {
-			end = true
-			subs = subs[:len(subs)-1]
+		if len(subs) > 0 {
+			switch subs[len(subs)-1].Op {
+			case syntax.OpEndText:
+				post, subs = "", subs[:len(subs)-1]
+			case syntax.OpEndLine:
+				post, subs = `(re.union (str.to_re "") (re.++ (str.to_re "\u{a}") re.all))`, subs[:len(subs)-1]
+			}
 		}
 		var parts []string
-		if !begin {
-			parts = append(parts, "re.all")
+		if pre != "" {
+			parts = append(parts, pre)
 		}
 		for _, s := range subs {
 			parts = append(parts, in.regexToSMT(s, atoms, false))
 		}
-		if !end {
-			parts = append(parts, "re.all")
+		if post != "" {
+			parts = append(parts, post)
 		}
 		return reConcat(parts)
 	}
